@@ -200,6 +200,36 @@ def _ckey(s):
     return (0 if _LITRX.match(s) else 1, s)
 
 
+def _order_arms(arms, texts, ren):
+    """Arms whose patterns are pairwise disjoint (distinct enum variants / literals, no guards) can be written in any
+    order: print them sorted, a trailing catch-all last.  Anything else keeps its source order."""
+    heads = []
+    for i, a in enumerate(arms):
+        if a.get("guard"):
+            return texts
+        p = pat_canon(a["pat"], ren)
+        if p == "_" and i == len(arms) - 1:
+            heads.append(None)
+            continue
+        alts = p.split("|")
+        hs = set()
+        for alt in alts:
+            m = re.match(r"^([A-Z][\w]*(?:::[A-Z]\w*)+|None|Some|Ok|Err|true|false|-?\d+|b?'[^']*')", alt.strip())
+            if not m:
+                return texts
+            hs.add(m.group(1))
+        heads.append(hs)
+    seen = set()
+    for h in heads:
+        if h is None:
+            continue
+        if h & seen:
+            return texts
+        seen |= h
+    body = sorted((t for t, h in zip(texts, heads) if h is not None))
+    return body + [t for t, h in zip(texts, heads) if h is None]
+
+
 def canon(e, ren=None):
     """Canonical, position-free string of an expression / statement / block."""
     if e is None:
@@ -295,7 +325,7 @@ def canon(e, ren=None):
         for a in e["arms"]:
             g = (" if " + c(a["guard"])) if a.get("guard") else ""
             arms.append("%s%s => %s" % (pat_canon(a["pat"], ren), g, c(a["body"])))
-        return "match %s {%s}" % (c(e["scrut"]), "; ".join(arms))
+        return "match %s {%s}" % (c(e["scrut"]), "; ".join(_order_arms(e["arms"], arms, ren)))
     if k == "While":
         return "while %s {%s}" % (c(e["cond"]), c(e["body"]))
     if k == "Loop":
@@ -786,6 +816,27 @@ class Enumerator:
                 else:
                     res.append(PathOut(evs, o.exit, o.val, o.label, o.valnode))
         return res
+
+
+def rename(node, locals_=None, fields=None):
+    """Deep copy with local variables / (self) field names renamed -- used to give role names to the variables a
+    rule reasons about, so that the rule does not depend on what the source calls them."""
+    locals_ = locals_ or {}
+    fields = fields or {}
+    if isinstance(node, list):
+        return [rename(x, locals_, fields) for x in node]
+    if not isinstance(node, dict):
+        return node
+    out = {k_: (rename(v, locals_, fields) if isinstance(v, (dict, list)) else v) for k_, v in node.items()}
+    k = out.get("k")
+    if k == "Path" and out.get("res") == "Local" and out.get("name") in locals_:
+        out["name"] = locals_[out["name"]]
+        out["text"] = out["name"]
+    elif k == "Binding" and out.get("name") in locals_:
+        out["name"] = locals_[out["name"]]
+    elif k == "Field" and out.get("name") in fields:
+        out["name"] = fields[out["name"]]
+    return out
 
 
 def subst_lets(text, lets, rounds=4):
